@@ -6,7 +6,7 @@ HARNESSES = {
 def _runs(tier):
     if tier == "quick":
         return [{"harness": "mip", "args": ["--depth", "3", "--seed-depth", "3"], "budget": 270}]
-    return [{"harness": "mip", "args": ["--depth", "4", "--depth-dim1", "5", "--seed-depth", "4"], "budget": 2500}]
+    return [{"harness": "mip", "args": ["--depth", "4", "--depth-dim1", "5", "--seed-depth", "3"], "budget": 2400}]
 
 CHECKS = {
     "C06": {"runs": _runs, "level": "model_checking", "deadline": {"quick": 270, "thorough": 2500},
